@@ -28,6 +28,7 @@ fn main() {
     "c18" => vh::engines::c18::run(),
     "c18server" => vh::engines::c18::serve(&args[2..]),
     "c19" => vh::engines::c19::run(),
+    "c20" => vh::engines::c20::run(),
     "c19worker" => vh::engines::c19::worker(&args[2..]),
     "c14" => vh::engines::c14::run(),
     "c15" => vh::engines::c15::run(),
